@@ -273,6 +273,18 @@ def build(s):
         return P.PackageRestrictionMulti(("iuse_stripped", "use"), build(s[1]), negate=s[2])
     if k == "cond":
         return P.Conditional("use", build(s[1]), tuple(build(c) for c in s[2]), negate=s[3])
+    if k == "rnode":        # as DepSet.parse builds the groups of REQUIRED_USE: no node_type
+        cls = {"and": B.AndRestriction, "or": B.OrRestriction, "one": B.JustOneRestriction,
+               "amo": B.AtMostOneOfRestriction}[s[1]]
+        return cls(*[build(c) for c in s[3]], negate=s[2])
+    if k == "reqset":
+        def mk(data):
+            if data[0] == "!":
+                return V.ContainmentMatch(data[1:], negate=True)
+            return V.ContainmentMatch(data)
+        return DepSet.parse(s[1], V.ContainmentMatch,
+                            operators={"||": B.OrRestriction, "": B.AndRestriction, "^^": B.JustOneRestriction,
+                                       "??": B.AtMostOneOfRestriction}, element_func=mk, attr="REQUIRED_USE")
     if k == "pnode":
         cls = {"and": B.AndRestriction, "or": B.OrRestriction, "one": B.JustOneRestriction,
                "amo": B.AtMostOneOfRestriction}[s[1]]
@@ -349,9 +361,10 @@ def render(s, obj, ids):
     if k == "ver":
         d = s[1] == "~"
         return f"RVer {cbool(d)} {cstr(s[2])} {c_rev(s[3])} {cbool(s[4])} {c_zlist(OPVALS[s[1]])}"
-    if k in ("vnode", "pnode"):
+    if k in ("vnode", "pnode", "rnode"):
         kids = [P(render(c, o, ids)) for c, o in zip(s[3], obj.restrictions)]
-        return f"RNode {KCOQ[s[1]]} {cN(1 if k == 'vnode' else 2)} {cbool(s[2])} {clist(kids, 'restr')}"
+        ty = {"vnode": 1, "pnode": 2, "rnode": 0}[k]
+        return f"RNode {KCOQ[s[1]]} {cN(ty)} {cbool(s[2])} {clist(kids, 'restr')}"
     if k == "pr":
         return (f"RAttr 0 {cbool(s[3])} {clist([cstr(x) for x in s[1].split('.')])} "
                 f"{P(render(s[2], obj.restriction, ids))}")
@@ -379,7 +392,7 @@ def render(s, obj, ids):
         return f"RNegate {cN(ids(obj))} {P(render(s[1], obj._restrict, ids))}"
     if k == "atom":
         return f"RAtom {c_atomrec(obj, s[1])}"
-    if k == "depset":
+    if k in ("depset", "reqset"):
         return intro(obj, ids)
     raise ValueError(s)
 
@@ -540,6 +553,23 @@ def g_pkg(rng, depth=2):
             tuple(g_pkg(rng, depth - 1) for _ in range(rng.choice((0, 1, 2, 2, 3)))))
 
 
+def g_rnode(rng, depth=1):
+    """a REQUIRED_USE style group: ^^ ?? || all-of over flags (ContainmentMatch leaves), possibly nested"""
+    kids = []
+    for _ in range(rng.choice((1, 2, 2, 3, 3))):
+        if depth > 0 and rng.random() < 0.2:
+            kids.append(g_rnode(rng, depth - 1))
+        else:
+            kids.append(("cont", rng.choice(FLAGS), False, rng.random() < 0.25))
+    return ("rnode", rng.choice(("one", "amo", "or", "and", "one", "amo")), rng.random() < 0.15, tuple(kids))
+
+
+REQSETS = ("^^ ( x y )", "^^ ( y x )", "^^ ( x x y )", "^^ ( x y y )", "?? ( x y )", "?? ( y x )", "?? ( x y x )",
+           "|| ( x y )", "|| ( y x )", "|| ( x x y )", "x y", "y x", "x x y", "z? ( ^^ ( x y ) )",
+           "z? ( ^^ ( y x ) )", "^^ ( x y ) ?? ( z w )", "?? ( z w ) ^^ ( x y )", "^^ ( x y ) ^^ ( x y )",
+           "!x ^^ ( x y z )", "^^ ( z y x ) !x", "?? ( x ( y z ) )", "?? ( ( y z ) x )")
+
+
 def swapcase_some(rng, s):
     return "".join(ch.swapcase() if rng.random() < 0.6 else ch for ch in s)
 
@@ -582,8 +612,16 @@ def variant(rng, s):
                            ("ver", s[1], s[2], 1 if s[3] != 1 else 2, s[4]),
                            ("ver", "~" if s[1] == "=" else "=" if s[1] == "~" else s[1], s[2], s[3], s[4]),
                            ("ver", s[1], {"1.0": "1.00", "1.00": "1.0", "1": "1.0"}.get(s[2], s[2]), s[3], s[4])])
-    if k in ("vnode", "pnode"):
+    if k in ("vnode", "pnode", "rnode"):
         kids = s[3]
+        if k != "vnode" and kids and rng.random() < 0.45:
+            # equal as SETS of children: another order, another multiplicity, or both
+            r2 = rng.random()
+            if r2 < 0.3:
+                return (k, s[1], s[2], shuffled(rng, kids))
+            if r2 < 0.65:
+                return (k, s[1], s[2], kids + (rng.choice(kids),))
+            return (k, s[1], s[2], shuffled(rng, kids + (rng.choice(kids),)))
         opts = [s, flipat(s, 2), (k, s[1], s[2], shuffled(rng, kids)),
                 (k, {"and": "or", "or": "and", "one": "amo", "amo": "one"}[s[1]], s[2], kids)]
         if kids:
@@ -734,6 +772,48 @@ WITNESSES = [
      ("cond", ("cont", "x", False, False), (("cat", "a", False),), True), 3),
     (("cond", ("cont", "x", False, False), (("cat", "a", False),), False),
      ("cond", ("cont", "y", False, False), (("cat", "a", False),), False), 3),
+    (("rnode", "one", False, (("cont", "x", False, False), ("cont", "x", False, False), ("cont", "y", False, False))), ("rnode", "one", False, (("cont", "x", False, False), ("cont", "y", False, False))), 1),
+    (("rnode", "one", False, (("cont", "x", False, False), ("cont", "y", False, False))), ("rnode", "one", False, (("cont", "y", False, False), ("cont", "x", False, False))), 1),
+    (("rnode", "one", True, (("cont", "x", False, False), ("cont", "y", False, False), ("cont", "y", False, False))), ("rnode", "one", True, (("cont", "y", False, False), ("cont", "x", False, False))), 1),
+    (("pnode", "one", False, (("cat", "a", False), ("slot", "0", False), ("cat", "a", False))),
+     ("pnode", "one", False, (("cat", "a", False), ("slot", "0", False))), 3),
+    (("pnode", "one", False, (("cat", "a", False), ("slot", "0", False))),
+     ("pnode", "one", False, (("slot", "0", False), ("cat", "a", False))), 3),
+    (("rnode", "amo", False, (("cont", "x", False, False), ("cont", "x", False, False), ("cont", "y", False, False))), ("rnode", "amo", False, (("cont", "x", False, False), ("cont", "y", False, False))), 1),
+    (("rnode", "amo", False, (("cont", "x", False, False), ("cont", "y", False, False))), ("rnode", "amo", False, (("cont", "y", False, False), ("cont", "x", False, False))), 1),
+    (("rnode", "amo", True, (("cont", "x", False, False), ("cont", "y", False, False), ("cont", "y", False, False))), ("rnode", "amo", True, (("cont", "y", False, False), ("cont", "x", False, False))), 1),
+    (("pnode", "amo", False, (("cat", "a", False), ("slot", "0", False), ("cat", "a", False))),
+     ("pnode", "amo", False, (("cat", "a", False), ("slot", "0", False))), 3),
+    (("pnode", "amo", False, (("cat", "a", False), ("slot", "0", False))),
+     ("pnode", "amo", False, (("slot", "0", False), ("cat", "a", False))), 3),
+    (("rnode", "or", False, (("cont", "x", False, False), ("cont", "x", False, False), ("cont", "y", False, False))), ("rnode", "or", False, (("cont", "x", False, False), ("cont", "y", False, False))), 1),
+    (("rnode", "or", False, (("cont", "x", False, False), ("cont", "y", False, False))), ("rnode", "or", False, (("cont", "y", False, False), ("cont", "x", False, False))), 1),
+    (("rnode", "or", True, (("cont", "x", False, False), ("cont", "y", False, False), ("cont", "y", False, False))), ("rnode", "or", True, (("cont", "y", False, False), ("cont", "x", False, False))), 1),
+    (("pnode", "or", False, (("cat", "a", False), ("slot", "0", False), ("cat", "a", False))),
+     ("pnode", "or", False, (("cat", "a", False), ("slot", "0", False))), 3),
+    (("pnode", "or", False, (("cat", "a", False), ("slot", "0", False))),
+     ("pnode", "or", False, (("slot", "0", False), ("cat", "a", False))), 3),
+    (("rnode", "and", False, (("cont", "x", False, False), ("cont", "x", False, False), ("cont", "y", False, False))), ("rnode", "and", False, (("cont", "x", False, False), ("cont", "y", False, False))), 1),
+    (("rnode", "and", False, (("cont", "x", False, False), ("cont", "y", False, False))), ("rnode", "and", False, (("cont", "y", False, False), ("cont", "x", False, False))), 1),
+    (("rnode", "and", True, (("cont", "x", False, False), ("cont", "y", False, False), ("cont", "y", False, False))), ("rnode", "and", True, (("cont", "y", False, False), ("cont", "x", False, False))), 1),
+    (("pnode", "and", False, (("cat", "a", False), ("slot", "0", False), ("cat", "a", False))),
+     ("pnode", "and", False, (("cat", "a", False), ("slot", "0", False))), 3),
+    (("pnode", "and", False, (("cat", "a", False), ("slot", "0", False))),
+     ("pnode", "and", False, (("slot", "0", False), ("cat", "a", False))), 3),
+    (("vnode", "or", False, (("exact", "a", True, False), ("glob", "f", True, True, False), ("exact", "a", True, False))),
+     ("vnode", "or", False, (("glob", "f", True, True, False), ("exact", "a", True, False))), 0),
+    (("vnode", "and", False, (("exact", "a", True, False), ("glob", "f", True, True, False), ("exact", "a", True, False))),
+     ("vnode", "and", False, (("glob", "f", True, True, False), ("exact", "a", True, False))), 0),
+    (("reqset", "^^ ( x x y )"), ("reqset", "^^ ( x y )"), 9),
+    (("reqset", "^^ ( x y )"), ("reqset", "^^ ( y x )"), 9),
+    (("reqset", "?? ( x y x )"), ("reqset", "?? ( x y )"), 9),
+    (("reqset", "?? ( x y )"), ("reqset", "?? ( y x )"), 9),
+    (("reqset", "|| ( x x y )"), ("reqset", "|| ( y x )"), 9),
+    (("reqset", "x x y"), ("reqset", "y x"), 9),
+    (("reqset", "z? ( ^^ ( x y y ) )"), ("reqset", "z? ( ^^ ( y x ) )"), 9),
+    (("reqset", "^^ ( x y ) ?? ( z w )"), ("reqset", "?? ( z w ) ^^ ( x y )"), 9),
+    (("depset", "|| ( a/b a/b dev-libs/foo )"), ("depset", "|| ( dev-libs/foo a/b )"), 9),
+    (("depset", "x? ( a/b dev-libs/foo a/b )"), ("depset", "x? ( dev-libs/foo a/b )"), 9),
     (("atom", "=a/b-1.0", False), ("atom", "=a/b-1.0", True), 3),
     (("atom", ">=a/b-1.0", False), ("atom", ">=a/b-1.0", True), 3),
     (("atom", "~a/b-1.0", False), ("atom", "~a/b-1.0", True), 3),
@@ -767,7 +847,9 @@ def subject_of(s):
         for c in s[3]:
             return subject_of(c)
         return 0
-    if k == "depset":
+    if k == "rnode":
+        return 1
+    if k in ("depset", "reqset"):
         return 9
     return 3
 
@@ -786,19 +868,27 @@ def gen_pairs(chk):
             a = g_value(rng, 2)
         elif r < 0.50:
             a = g_value(rng, 3)
-        elif r < 0.56:
+        elif r < 0.54:
             a = ("depset", rng.choice(DEPSETS))
+        elif r < 0.57:
+            a = ("reqset", rng.choice(REQSETS))
+        elif r < 0.66:
+            a = g_rnode(rng)
         else:
             a = g_pkg(rng)
         r = rng.random()
         if a[0] == "depset":
             b = ("depset", rng.choice(DEPSETS)) if r < 0.8 else a
+        elif a[0] == "reqset":
+            b = ("reqset", rng.choice(REQSETS)) if r < 0.8 else a
         elif r < 0.12:
             b = a                                   # the same constructor call again (a distinct object)
         elif r < 0.90:
             b = variant(rng, a)
             if b == a or rng.random() < 0.25:
                 b = variant(rng, b)
+        elif a[0] == "rnode":
+            b = g_rnode(rng)
         else:
             b = g_pkg(rng) if subject_of(a) == 3 and a[0] != "ver" else g_value(rng, subject_of(a))
         if a[0] == "udc" and rng.random() < 0.12:
@@ -829,7 +919,7 @@ def spec_atoms(s, acc):
     return acc
 
 
-_KINDS = {"exact", "glob", "regex", "cont", "udc", "ver", "vnode", "pr", "cat", "pkgdep", "slot", "subslot", "repo",
+_KINDS = {"rnode", "reqset", "exact", "glob", "regex", "cont", "udc", "ver", "vnode", "pr", "cat", "pkgdep", "slot", "subslot", "repo",
           "vm", "static", "udd", "multi", "cond", "pnode", "always", "negate", "atom", "depset"}
 
 
@@ -925,6 +1015,12 @@ def main(chk: Check):
     ok = chk.build(["C07/Prop_C07.vo"])
     if ok:
         chk.check_assumptions("C07/Prop_C07.v")
+        model_ok = True
+    else:
+        # a proof obligation (typically a `tbl_*_ok` tie to a regenerated tuple) no longer checks: the model
+        # and the spec do not depend on the generated tables, so the search for a concrete failing pair
+        # (model vs implementation, spec on the implementation's answers) goes on without the proofs
+        model_ok = chk.build(["C07/Spec_C07.vo"], what="model and spec (without the proofs)")
     chk.lint(["C07"])
     chk.check_fingerprint(ANCHORS)
 
@@ -1053,7 +1149,7 @@ def main(chk: Check):
 
     # ---- evaluate model and spec inside Coq (the four streams concurrently)
     any_prop = bool(reported)
-    if ok and tbl_ok:
+    if model_ok:
         import concurrent.futures as cf
 
         pre = preamble()
